@@ -2,71 +2,26 @@ package main
 
 import (
 	"fmt"
+	"math/big"
 
-	"github.com/hashicorp/hcl/v2"
-	"github.com/hashicorp/hcl/v2/gohcl"
-	"github.com/hashicorp/hcl/v2/hclsyntax"
-	"github.com/hashicorp/hcl/v2/hclwrite"
-	"github.com/hashicorp/hcl/v2/json"
 	"github.com/zclconf/go-cty/cty"
 )
 
-type A struct {
-	S  string     `hcl:"s"`
-	V  cty.Value  `hcl:"v,optional"`
-	PV *cty.Value `hcl:"pv"`
-	L  []string   `hcl:"l"`
-	M  map[string]string `hcl:"m"`
-	F float64 `hcl:"f"`
-}
-
-func try(name string, f func()) {
-	defer func() {
-		if r := recover(); r != nil {
-			fmt.Println(name, "PANIC:", r)
-		}
-	}()
-	f()
-}
-
-func rt(a A) {
-	try("rt", func() {
-		f := hclwrite.NewEmptyFile()
-		gohcl.EncodeIntoBody(&a, f.Body())
-		src := f.Bytes()
-		fmt.Printf("SRC:\n%s", src)
-		pf, d := hclsyntax.ParseConfig(src, "x.hcl", hcl.InitialPos)
-		fmt.Println("parse diags:", d)
-		var b A
-		d = gohcl.DecodeBody(pf.Body, nil, &b)
-		fmt.Println("decode diags:", d)
-		fmt.Printf("%#v\n", b)
-		if b.PV != nil {
-			fmt.Printf("pv=%#v\n", *b.PV)
-		}
-	})
-}
-
 func main() {
-	v := cty.StringVal("x")
-	rt(A{S: "é \xff\xfe x", V: cty.NullVal(cty.String), PV: &v, L: nil, M: nil, F: 5e-324})
-	rt(A{S: "a", V: cty.NilVal, L: []string{}, M: map[string]string{}})
-	rt(A{S: "a", V: cty.ListVal([]cty.Value{cty.StringVal("a")}), L: []string{"$${", "%%{", " ", "\x7f", "\U0001F600", "\u0000"}, M: map[string]string{"": "e", "a b": "1", "a.b": "2", "if": "x"}, F: -0.0})
-	// marked / unknown ctx
-	try("ctx", func() {
-		pf, _ := hclsyntax.ParseConfig([]byte("s = m\nl = [u]\nm = {a = d}\nf = 1\n"), "x.hcl", hcl.InitialPos)
-		ctx := &hcl.EvalContext{Variables: map[string]cty.Value{"m": cty.StringVal("q").Mark("x"), "u": cty.UnknownVal(cty.String), "d": cty.DynamicVal}}
-		var b A
-		d := gohcl.DecodeBody(pf.Body, ctx, &b)
-		fmt.Println("decode diags:", d)
-		fmt.Printf("%#v\n", b)
-	})
-	try("json", func() {
-		pf, d := json.Parse([]byte(`{"s": "é${"}`), "x.json")
-		fmt.Println(d)
-		var b A
-		d = gohcl.DecodeBody(pf.Body, nil, &b)
-		fmt.Println("decode diags:", d)
-		fmt.Printf("%#v\n", b)
-	})
+	a := cty.NumberFloatVal(0.3)
+	b := cty.MustParseNumberVal("0.299999999999999988897769753748434595763683319091796875")
+	fmt.Println(a.RawEquals(b), a.Equals(b), a.AsBigFloat().Cmp(b.AsBigFloat()))
+	fmt.Println(b.AsBigFloat().Text('p', 0), a.AsBigFloat().Text('p', 0))
+	f, _, _ := big.ParseFloat("0.299999999999999988897769753748434595763683319091796875", 10, 512, big.ToNearestEven)
+	fmt.Println(f.Acc(), f.Text('p', 0))
+	f, _, _ = big.ParseFloat("0.1000000000000000055511151231257827021181583404541015625", 10, 512, big.ToNearestEven)
+	fmt.Println(f.Acc(), f.Text('p', 0), f.Cmp(big.NewFloat(0.1)))
+	f, _, _ = big.ParseFloat("0.375", 10, 512, big.ToNearestEven)
+	fmt.Println(f.Acc(), f.Text('p', 0), f.Cmp(big.NewFloat(0.375)))
+	f, _, _ = big.ParseFloat("0.1", 10, 512, big.ToNearestEven)
+	g, _, _ := big.ParseFloat(f.Text('f', -1), 10, 512, big.ToNearestEven)
+	fmt.Println(f.Cmp(g), f.Text('f', -1))
+	f, _, _ = big.ParseFloat("3.14159", 10, 512, big.ToNearestEven)
+	g, _, _ = big.ParseFloat(f.Text('f', -1), 10, 512, big.ToNearestEven)
+	fmt.Println(f.Cmp(g), f.Text('f', -1))
 }
